@@ -162,7 +162,7 @@ def driver_lines(c, origins, fanin_mode):
         if v not in rr: rr[v] = 0 if snk[v] else 1 + max(rrank(r) for r in succs[v])
         return rr[v]
     ranks = f"={','.join(str(frank(v)) for v in range(n))};{','.join(str(rrank(v)) for v in range(n))}"
-    req = [f'trav wf {head}', f'trav ranks {head} {ranks}', f'trav topo {head}', f'trav levels {head}', f'trav lines {head} {enc_lists(outl)}', f'trav rev {head}']
+    req = [f'trav wf {head}', f'trav ranks {head} {ranks}', f'trav linetab {head} {enc_lists(outl)};{len(c.lines)}', f'trav topo {head}', f'trav levels {head}', f'trav lines {head} {enc_lists(outl)}', f'trav rev {head}']
     for o in origins:
         req.append(f"trav fanin{fanin_mode} {head} ={','.join(map(str, o))}")
     return req
@@ -179,7 +179,7 @@ def real_answers(c, origins):
             return f()
         except Exception as ex:
             return f'raise:{type(ex).__name__}'
-    res = ['1', '11']
+    res = ['1', '11', '1']
     if (len(c.nodes) + len(c.lines)) % 5 < 2:
         # traversals of one circuit may be IN PROGRESS AT THE SAME TIME (two iterators in lock-step, a fan-in query inside a
         # loop over the levels): each must yield what it yields alone
@@ -527,7 +527,8 @@ def run_graph_batch(ck, cases, fmode):
         ck.broken_tie('traversal model correspondence', f'driver: {type(ex).__name__}: {ex}'[:300])
         ans = None
     names = ['GA.wfB (edge consistency of the exported circuit)',
-             'GA.rankOKB / GA.rrankOKB (longest-path ranks certify that the cut graphs are acyclic)', 'topological_order', 'topological_order_with_level',
+             'GA.rankOKB / GA.rrankOKB (longest-path ranks certify that the cut graphs are acyclic)',
+             'lineTableB (hypothesis of C17.line_order_cover: the out-line lists name every line of the circuit exactly once)', 'topological_order', 'topological_order_with_level',
              'topological_line_order', 'reversed_topological_order']
     for case, c, (a, k) in zip(cases, circuits, spans):
         real = real_answers(c, case['origins'])
